@@ -109,6 +109,9 @@ def execute(version, script, token, user_plug, seed, thr_of=None, keybits=1024, 
 
     def disc_text(kind):
         text = TEXTS[kind][0]
+        if kind == 'json' and seed % 3 == 0:
+            # a long-winded server: one login packet of 20 KB (arrives in one read or several, also through the cipher)
+            text = '{"text": "You are banned%s"}' % (' .' * 10000)
         if kind.startswith('outdated') and seed % 2:
             # the usual case in the field: the server names a version this library has never heard of
             text = text.replace('1.16.5', '1.99.9').replace('1.8.9', '0.30-classic')
